@@ -139,7 +139,7 @@ func (fr *frame) splitPath(p value) (string, value) {
 	// the symbolic tail must not contain a separator (checked once per distinct term)
 	key := "fsbase:" + base.String()
 	r := fr.run()
-	if _, done := r.objs[key]; !done {
+	if _, done := r.objs[key]; !done && !r.termSepFree(base) {
 		if r.check(smt.Contains(base, smt.StrC("/"))) != smt.Unsat {
 			panic(unsupported("model FS: symbolic path component may contain '/': " + base.String()))
 		}
@@ -799,4 +799,39 @@ func (fr *frame) drain(r iface) (value, value) {
 		}
 	}
 	panic(unsupported(fmt.Sprintf("io: cannot drain reader of type %s", r.t)))
+}
+
+// termSepFree: syntactic check that a string term cannot contain '/'.
+func (r *runState) termSepFree(t *smt.Term) bool {
+	switch {
+	case t.IsConst:
+		return !strings.Contains(t.S, "/")
+	case t.Op == "var":
+		return r.sepFree[t.Name]
+	case t.Op == "str.++":
+		for _, a := range t.Args {
+			if !r.termSepFree(a) {
+				return false
+			}
+		}
+		return true
+	}
+	return false
+}
+
+func init() {
+	register("path/filepath.Dir", func(fr *frame, a []value) value {
+		if _, ok := normStr(a[0]).(string); ok {
+			return realBody(fr, []value{normStr(a[0])})
+		}
+		d, _ := fr.splitPath(a[0])
+		return d
+	})
+	register("path/filepath.Base", func(fr *frame, a []value) value {
+		if _, ok := normStr(a[0]).(string); ok {
+			return realBody(fr, []value{normStr(a[0])})
+		}
+		_, b := fr.splitPath(a[0])
+		return b
+	})
 }
